@@ -211,7 +211,7 @@ def gen_cache_trace(seed, faults, kinds=("wb", "wt")):
                     ops.append(["PRE", w, ctx.aligned_addr(w), ctx.value(w)])
         else:
             ops.append(_rw(ctx, p_write, p_fault, p_unc))
-    return {"config": cfg, "faults": bool(faults), "ops": ops[:100]}
+    return {"config": cfg, "faults": bool(faults), "decoy": r.random() < 0.25, "ops": ops[:100]}
 
 
 # ---------------------------------------------------------------------------
